@@ -194,7 +194,11 @@ class Roles:
             c = cs[0]
             d, what = getters[c.qname]
             node_arg = m.orig_operand(c.args[1]) if len(c.args) > 1 else frozenset()
-            self.queries[m.id] = dict(body=m, dir=d, what=what, variants=self.variant_filter(m), ret=m.local_ty(0),
+            item = None
+            for dd in m.defs.get(0, []):
+                if dd[0] == 'call' and dd[2].qname in ('std::iter::Iterator::filter_map', 'std::iter::Iterator::map') and len(dd[2].gargs) >= 2:
+                    item = dd[2].gargs[1]
+            self.queries[m.id] = dict(body=m, dir=d, what=what, variants=self.variant_filter(m), ret=m.local_ty(0), item=item,
                                       node_from_param=[o.key for o in node_arg if o.kind == 'arg'], getter=c)
         self.note('store queries', {q['body'].name: '%s %s %s' % (q['dir'], q['what'], sorted(q['variants']) if isinstance(q['variants'], frozenset) else q['variants'])
                                     for q in self.queries.values()})
@@ -209,7 +213,7 @@ class Roles:
         return q and q['dir'] == 'in' and q['ret'].startswith('std::option::Option<') and self.task_node in q['ret']
 
     def is_readers_of(self, q):
-        return q and q['dir'] == 'in' and 'Iterator<Item = %s>' % self.task_node in q['ret']
+        return q and q['dir'] == 'in' and q.get('item') == self.task_node
 
     # ---------------------------------------------------------------------------------------
     def _resolve_exec_sites(self):
